@@ -124,7 +124,7 @@ func checkAndUpgradeValidatorsToYouV5(ctx *context) {
 
 	num := ctx.header.Number.Uint64()
 	parent := ctx.chain.GetHeader(ctx.header.ParentHash, num-1)
-	if parent.CurrVersion == params.YouV4 {
+	if parent != nil && parent.CurrVersion == params.YouV4 {
 		logging.Info("update current validators to YouV5", "height", num)
 		// only do once on the first YouV5 block.
 		all := ctx.db.GetValidatorsForUpdate()
